@@ -81,17 +81,19 @@ package engine
 //@   loop 5 iteration [next_shard_only_after_the_listing_ended] listingEnded()
 
 // ---- C07 (engine side): the garbage collector hands expired objects to the engine; an
-// expired object is removed only if the engine-wide lock check did not find a live lock
-// for that very address (the lock may live on another shard than the object). An error of
-// the check is logged and the removal proceeds - that is the code's documented choice; a
-// clean "locked" verdict must always skip the object.
+// expired object is removed only if the engine-wide lock check answered, without an error,
+// that no live lock exists for that very address (the lock may live on another shard than
+// the object). The statement leaves no room for "could not check": while a shard holds a live
+// lock, expiry handling does not delete the object.
 //@ ghost pred engineFoundLiveLock(addr oid.Address) bool
+//@ ghost pred engineFoundNoLock(addr oid.Address) bool
 //@ callrule c07_engine_lock_verdict in (*StorageEngine).processExpiredObjects
 //@   property C07
 //@   callee (*engine.StorageEngine).isLocked
 //@   pureeffect
-//@   defines engineFoundLiveLock(a0) == (err == nil && res0)
+//@   defines engineFoundLiveLock(a0) == (err == nil && res0) && engineFoundNoLock(a0) == (err == nil && !res0)
 //@ callrule c07_expired_object_removed_only_when_not_locked in (*StorageEngine).processExpiredObjects
 //@   property C07
 //@   callee (*engine.StorageEngine).processAddrDelete
 //@   requires [no_removal_of_an_object_with_a_live_lock] !engineFoundLiveLock(a0)
+//@   requires [no_removal_without_a_completed_lock_check] engineFoundNoLock(a0)
